@@ -6,6 +6,7 @@ Oracle: a broken string must end in an error - at parse, or (not generable and g
 generate; producing a molecule is the violation.  Termination: deterministic step budget (line events).
 """
 import os
+import json
 import re
 
 import numpy as np
@@ -34,7 +35,7 @@ THOROUGH = {"ops": 60000, "bytes": 200000}
 
 OPERATORS = ["drop_paren", "insert_paren", "drop_bracket", "drop_brace", "bd_between_atoms", "unknown_symbol",
              "unknown_distribution", "list_length", "negative_weight", "negative_list_entry", "text_after_mixture",
-             "percent_range", "no_distribution", "drop_prefix", "prefix_symbol", "prefix_id", "open_mixture"]
+             "percent_range", "no_distribution", "drop_prefix", "prefix_symbol", "prefix_id", "open_mixture", "prefix_call"]
 
 
 def plan(tier, seed):
@@ -200,7 +201,7 @@ def apply_operator(draw, op, mol: Mol):
         if not cands:
             return None
         k = draw(st.sampled_from(cands))
-        sym = draw(st.sampled_from(["[$]", "[<]", "[>]", "[$1]"]))
+        sym = draw(st.sampled_from(["[$]", "[<]", "[>]", "[$1]", "[$|0.5|]", "[>|2.0|]", "[<|3.|]", "[$|.5|]", "[$|2|]", "[<|1e-1|]", "[>7|0.25|]"]))
         return text[:k] + sym + text[k:], "descriptor bonds two atoms", "mol"
     if op == "unknown_symbol":
         cands = [m.start() + 1 for m in re.finditer(r"\[[$<>]", text)]
@@ -280,6 +281,28 @@ def apply_operator(draw, op, mol: Mol):
             return None
         m = draw(st.sampled_from(ms))
         return text[:m.start() + 1] + text[m.end():], "stochastic object without distribution (not generable)", "mol"
+    if op == "prefix_call":
+        # misuse at call level: generate(prefix=...) with no prefix / a prefix whose open descriptor differs from the left terminal,
+        # optionally after a correct call on the same object
+        if not isinstance(mol.elements[0], Tok) or len(mol.elements) < 2 or not isinstance(mol.elements[1], Stoch):
+            return None
+        pre, sto = mol.elements[0], mol.elements[1]
+        if len(pre.atts) != 1:
+            return None
+        rest = "".join(mol.written[1:])
+        bd = pre.atts[-1][1]
+        core = pre.text_ext[: len(pre.text_ext) - len(bd.text(True))]
+        how = draw(st.sampled_from(["missing", "symbol", "id"]))
+        if how == "missing":
+            bad = None
+        elif how == "symbol":
+            bad = core + BD(draw(st.sampled_from([x for x in "$<>" if x != bd.symbol])), bd.id, None, bd.order).text(True)
+        else:
+            ids = sorted({b.id for b in sto.repeat_bds if b.id != bd.id}, key=repr)
+            pool = ids + [99] if bd.id != 99 else ids + [98]
+            bad = core + BD(bd.symbol, draw(st.sampled_from(pool)), None, bd.order).text(True)
+        return {"good": pre.text_ext, "bad": bad, "rest": rest, "good_first": draw(st.integers(0, 2))}, \
+            "generate(prefix=...) without the prefix / with a prefix whose open descriptor differs from the left terminal", "call"
     if op in ("drop_prefix", "prefix_symbol", "prefix_id"):
         if not isinstance(mol.elements[0], Tok) or len(mol.elements) < 2 or not isinstance(mol.elements[1], Stoch):
             return None
@@ -304,8 +327,49 @@ def apply_operator(draw, op, mol: Mol):
 
 
 # ------------------------------------------------------------------------------------------------ oracle
+def judge_call(acc, op, valid_text, spec, note, nontrivial):
+    """call-level misuse on one parsed object, optionally after correct calls on the same object"""
+    import gbigsmiles as g
+
+    case = {"operator": op, "valid": valid_text, "broken": spec, "kind": "call"}
+    sig = {"operator": op, "after_valid_calls": spec["good_first"] > 0}
+    acc.case((op, json.dumps(spec, sort_keys=True)) if nontrivial else None, labels=["op:" + op, f"prefix_call:after_{spec['good_first']}_valid"])
+    st_, rest = parse_guarded(g.Molecule, spec["rest"])
+    if st_ != "ok":
+        acc.label(f"outcome:{op}:rest_not_parsable")
+        return
+
+    def prefix(text):
+        if text is None:
+            return None
+        return g.Molecule(text).generate(rng=np.random.default_rng(0))
+    for k in range(spec["good_first"]):
+        st_, res = probe.guarded(lambda: rest.generate(prefix=prefix(spec["good"]), rng=np.random.default_rng(10 + k)), seconds=60)
+        if st_ != "ok":
+            acc.label(f"outcome:{op}:valid_call_did_not_succeed")
+            return
+    produced = None
+    for k in (1, 2, 3):
+        st_, res = probe.guarded(lambda: rest.generate(prefix=prefix(spec["bad"]), rng=np.random.default_rng(k)), seconds=60)
+        if st_ == "ok" and res is not None:
+            try:
+                produced = res.smiles
+            except Exception:  # noqa: BLE001
+                produced = None
+            if produced is not None:
+                break
+    if produced is not None:
+        acc.violation("rejected", f"{note}: Molecule({spec['rest']!r}).generate(prefix={spec['bad']!r}) after {spec['good_first']} correct call(s) with "
+                      f"prefix {spec['good']!r} returns {produced!r}", case, sig, size=len(spec["rest"]))
+    else:
+        acc.label(f"outcome:{op}:generate_raise")
+
+
 def judge(acc, op, valid_text, broken, note, kind, nontrivial):
     import gbigsmiles as g
+
+    if kind == "call":
+        return judge_call(acc, op, valid_text, broken, note, nontrivial)
 
     case = {"operator": op, "valid": valid_text, "broken": broken, "kind": kind}
     sig = {"operator": op}
@@ -354,7 +418,7 @@ def judge(acc, op, valid_text, broken, note, kind, nontrivial):
 def op_case(draw):
     op = draw(st.sampled_from(OPERATORS))
     kw = {}
-    if op in ("drop_prefix", "prefix_symbol", "prefix_id"):
+    if op in ("drop_prefix", "prefix_symbol", "prefix_id", "prefix_call"):
         kw["force_prefix"] = True
         if op == "prefix_id" and draw(st.booleans()):
             kw["arche"] = "twoid"
